@@ -235,6 +235,9 @@ def run():
                 for key, what, wit in bad:
                     ck.violation(key, what, dict(stream=["struct"] + list(idx), detail=wit))
     if not ck.quick:
+        from tvf.contracts_run import run_suite_with_contracts
+        run_suite_with_contracts(ck, ['apply_boundary_conditions'])
+    if not ck.quick:
         hyp(ck)
     ck.require_events("periodic fold compared with exact rational fold", "reflective fold compared with exact rational fold",
                       "structure case (untouched coords / 1-D vs 2-D / check_bounds)")
